@@ -184,10 +184,24 @@ package vers
 //@   ensures exclusion-elsewhere: interval.exact == "" && interval.exclude != "" ==> len(result) == 0   [C04]
 
 // ---- normalisation (C16): at most one output per input constraint
+//@ spec opOf(c string) string = strings.HasPrefix(c, ">=") ? ">=" : (strings.HasPrefix(c, "<=") ? "<=" : (strings.HasPrefix(c, "!=") ? "!=" : (strings.HasPrefix(c, ">") ? ">" : (strings.HasPrefix(c, "<") ? "<" : (strings.HasPrefix(c, "=") ? "=" : "")))))
+//@ spec verOf(c string) string = c[len(opOf(c)):]
 //@ func normalizeConstraints
 //@   loop 1 invariant len(vcs) <= rangeindex + 1
+//@   loop 1 invariant org: forall m int :: 0 <= m && m < len(vcs) ==> (exists i int :: 0 <= i && i <= rangeindex#1 && vcs[m].constraint == strings.Map(anon(1), constraints[i]) && vcs[m].constraint != "")
+//@   loop 1 invariant seen: forall k string :: seen[k] ==> (exists m int :: 0 <= m && m < len(vcs) && vcs[m].constraint == k)
+//@   loop 1 invariant seen: forall m int :: 0 <= m && m < len(vcs) ==> seen[vcs[m].constraint]
+//@   loop 1 invariant cmpl: forall i int :: 0 <= i && i <= rangeindex#1 && strings.Map(anon(1), constraints[i]) != "" ==> (exists m int :: 0 <= m && m < len(vcs) && vcs[m].constraint == strings.Map(anon(1), constraints[i])) using seen
+//@   loop 1 invariant dist: forall m1 int :: forall m2 int :: 0 <= m1 && m1 < m2 && m2 < len(vcs) ==> vcs[m1].constraint != vcs[m2].constraint using seen
+//@   loop 2 invariant (rangeindex#2 >= 0 ==> !strings.HasPrefix(c#2, ">=")) && (rangeindex#2 >= 1 ==> !strings.HasPrefix(c#2, "<=")) && (rangeindex#2 >= 2 ==> !strings.HasPrefix(c#2, "!=")) && (rangeindex#2 >= 3 ==> !strings.HasPrefix(c#2, ">")) && (rangeindex#2 >= 4 ==> !strings.HasPrefix(c#2, "<")) && (rangeindex#2 >= 5 ==> !strings.HasPrefix(c#2, "="))
+//@   loop 1 invariant ver: forall m int :: 0 <= m && m < len(vcs) && vcs[m].constraint != "*" ==> e.NewVersion(verOf(vcs[m].constraint)).1 == nil && vcs[m].version == e.NewVersion(verOf(vcs[m].constraint)).0
 //@   loop 3 invariant len(sorted) == rangeindex + 1
+//@   loop 3 invariant forall n int :: 0 <= n && n <= rangeindex ==> sorted[n] == vcs[n].constraint
 //@   ensures no-more: result1 == nil ==> len(result0) <= len(constraints)   [C16]
+//@   ensures origin: result1 == nil ==> (forall n int :: 0 <= n && n < len(result0) ==> (exists i int :: 0 <= i && i < len(constraints) && result0[n] == strings.Map(anon(1), constraints[i]) && result0[n] != ""))   [C16] using org
+//@   ensures distinct: result1 == nil ==> (forall n1 int :: forall n2 int :: 0 <= n1 && n1 < n2 && n2 < len(result0) ==> result0[n1] != result0[n2])   [C16] using dist,seen
+//@   ensures sorted: result1 == nil ==> (forall n1 int :: forall n2 int :: 0 <= n1 && n1 < n2 && n2 < len(result0) ==> (result0[n2] == "*" ==> result0[n1] == "*") && (result0[n1] != "*" && result0[n2] != "*" ==> e.NewVersion(verOf(result0[n1])).0.Compare(e.NewVersion(verOf(result0[n2])).0) <= 0))   [C16] using ver
+//@   ensures complete: result1 == nil ==> (forall i int :: 0 <= i && i < len(constraints) && strings.Map(anon(1), constraints[i]) != "" ==> (exists n int :: 0 <= n && n < len(result0) && result0[n] == strings.Map(anon(1), constraints[i])))   [C16] using cmpl,seen
 //@   ensures nothing-in-nothing-out: len(constraints) == 0 ==> result1 == nil && len(result0) == 0   [C16]
 
 // ---- pairing of alternating bounds (C04)
@@ -236,3 +250,7 @@ package vers
 //@   ensures origin: result1 == nil ==> (forall m int :: 0 <= m && m < len(result0) ==> (exists k int :: exists t int :: 0 <= k && k < len(ivs(constraints)) && 0 <= t && t < len(rangeTexts(e.Name(), ivs(constraints)[k])) && rangeTexts(e.Name(), ivs(constraints)[k])[t] != "" && result0[m] == e.NewVersionRange(rangeTexts(e.Name(), ivs(constraints)[k])[t]).0))   [C04] using origin
 //@   ensures forward: result1 == nil ==> (forall k int :: forall t int :: 0 <= k && k < len(ivs(constraints)) && 0 <= t && t < len(rangeTexts(e.Name(), ivs(constraints)[k])) && rangeTexts(e.Name(), ivs(constraints)[k])[t] != "" ==> (exists m int :: 0 <= m && m < len(result0) && result0[m] == e.NewVersionRange(rangeTexts(e.Name(), ivs(constraints)[k])[t]).0))   [C04] using fwd
 //@   ensures parse-error: parseConstraints(constraints).1 != nil ==> result1 != nil   [C04]
+
+// the comparison literal handed to slices.SortFunc in normalizeConstraints: stars first, then by version
+//@ func normalizeConstraints$2
+//@   ensures result == (a.constraint == "*" ? (b.constraint == "*" ? 0 : -1) : (b.constraint == "*" ? 1 : a.version.Compare(b.version)))   [C16]
